@@ -9,4 +9,10 @@ theorem quad_step (a n c w : Nat) (ha : a + 1 ≤ n) (hc : c ≤ 2 * n + 3) (hw 
   have h1 : (a + 2) * (a + 2) ≤ (n + 1) * (n + 1) := Nat.mul_le_mul (by omega) (by omega)
   nlinarith
 
+theorem step_le {n P C s : Nat} (ih : n ≤ P + s + 1) (h : P < C) : n + 1 ≤ C + s + 1 := by omega
+
+theorem quad_lt {w P C s : Nat} (ih : w ≤ (P + s + 2) * (P + s + 2)) (h : P < C) :
+    1 + w ≤ (C + s + 2) * (C + s + 2) :=
+  quad_step (P + s) (C + s) 1 w (by omega) (by omega) ih
+
 end PP
